@@ -28,8 +28,7 @@ RULE = (
     "of a different scheduler handed to subscribe(observer, scheduler=X) (X = a second EventLoopScheduler or a "
     "CurrentThreadScheduler; X is only the default for operators without a scheduler of their own, the target stays the "
     "one given to observe_on / ReplaySubject); after a raising delivery k "
-    "exactly k+1 deliveries; after a dispose() issued from inside delivery k (deliveries being serial, every later one "
-    "would start after that dispose() returned) exactly k+1 deliveries; at quiescence delivered == received unless that probe raised, its subscription was disposed, "
+    "exactly k+1 deliveries; a dispose() issued from inside delivery k is generated but only prefix / order / no-overlap are judged after it (silence after dispose is C03's clause, stated for one thread); at quiescence delivered == received unless that probe raised, its subscription was disposed, "
     "or a raise killed the plain EventLoopScheduler thread; no deadlock; no exception other than the probe's own on a "
     "scheduler thread. Non-trivial: in some explored run a drain step (ScheduledObserver.run line or a delivery in "
     "progress, on a scheduler thread) executed between the entry and the return of a producer emission. "
@@ -268,9 +267,11 @@ def _judge(ctx, res):
             return ("duplicate" if dup else "order"), tag
         if p.raised and len(got) != p.raised[0] + 1:
             return "delivered-after-raise", f"{tag}: delivery {p.raised[0]} raised"
-        if p.disposed_in_cb is not None and len(got) != p.disposed_in_cb + 1:
-            # deliveries are serial (this property), so every later one STARTED after that dispose() had returned
-            return "delivered-after-dispose", f"{tag}: the subscription was disposed from inside delivery {p.disposed_in_cb}"
+        # A probe that disposed its subscription from inside delivery k: NOT judged beyond prefix / order / no overlap.
+        # "Silence after dispose() returned" is C03's clause, which is stated for a single thread or virtual time only;
+        # here the producer thread may be inside on_next/ensure_active while the loop thread disposes, and the C32
+        # statement says nothing about dispose. (A stricter clause - exactly k+1 deliveries - was tried in the gap round
+        # and failed on the unchanged tree in the thorough tier at two preemptions: over-reach, removed.)
         relaxed = bool(p.raised) or p.disposed_in_cb is not None or (i == 0 and case.get("dispose") is not None) or (any_raise and on == "loop")
         if res.complete and not relaxed and len(got) != len(exp):
             return "undelivered", f"{tag}: scheduler idle, {len(exp) - len(got)} received notification(s) never delivered"
